@@ -2,7 +2,7 @@ SPECIFICATION MCSpec
 CONSTANTS
   Groups = {"g1"}
   GroupOnFollower = FALSE
-  OnlyOpenEnded = TRUE
+  OnlyOpenEnded = FALSE
   CleanupById = FALSE
   Consumers = {"c1", "c2", "c3"}
   MaxEpoch = 3
@@ -14,8 +14,8 @@ CONSTANTS
   UseBounded = TRUE
   C0 = "c1"
   UseRace = FALSE
-  MaxElect = 0
-  StrandedKnown = TRUE
+  MaxElect = 1
+  StrandedKnown = FALSE
   UseBad = FALSE
 INVARIANTS C13_OneActive
 PROPERTIES StepsOK
